@@ -47,7 +47,7 @@ def b_isinstance(ex, state, args, kwargs, sv):
     return VBool(simp(disj(res)))
 
 
-KIND_TYPES = {"int": {"int", "object"}, "bool": {"bool", "int", "object"}, "real": {"float", "object"},
+KIND_TYPES = {"abytes": {"bytes", "object"}, "int": {"int", "object"}, "bool": {"bool", "int", "object"}, "real": {"float", "object"},
               "bytes": {"bytes", "object"}, "str": {"str", "object"}, "none": {"NoneType", "object"},
               "tuple": {"tuple", "object"}}
 
@@ -355,7 +355,7 @@ def b_bytes(ex, state, args, kwargs, sv):
     if not args:
         return VBytes(b"")
     a = args[0]
-    if isinstance(a, VBytes):
+    if isinstance(a, (VBytes, VABytes)):
         return a
     if isinstance(a, VTuple) or (isinstance(a, VRef) and ex.obj(state, a).kind == "list"):
         items = ex.iter_concrete(state, a)
@@ -784,10 +784,13 @@ def m_array(ex, state, args, kwargs):
         raise Unsupported("array typecode")
     o = HObj("barray")
     if len(args) == 1:
-        o.arr = z3.K(z3.IntSort(), z3.BitVecVal(0, 8))
+        o.arr = z3.K(z3.IntSort(), z3.IntVal(0))
         o.n = z3.IntVal(0)
         return state.alloc(o)
     src = args[1]
+    if isinstance(src, VABytes):
+        o.arr, o.n = src.arr, src.n
+        return state.alloc(o)
     if isinstance(src, VBytes):
         from . import natives
         o.arr = natives.bytes_to_array(ex, state, src.t)
@@ -806,21 +809,16 @@ CLASS_MODELS["array.array"] = m_array
 
 @builtin("barray.tobytes", "barray.tostring")
 def barray_tobytes(ex, state, args, kwargs, sv):
-    from . import natives
     o = ex.obj(state, sv)
-    return VBytes(natives.array_to_bytes(ex, state, o.arr, o.n))
+    return VABytes(o.arr, o.n)
 
 
 @builtin("barray.append")
 def barray_append(ex, state, args, kwargs, sv):
     o = state.heap[sv.oid]
-    v = args[0]
-    bv = getattr(v, "bv", None)
-    if bv is None:
-        t = ex.num(v)
-        ex.raise_if(state, z3.Or(t < 0, t > 255), "OverflowError")
-        bv = z3.Int2BV(t, 8)
-    o.arr = z3.Store(o.arr, o.n, bv)
+    t = ex.num(args[0])
+    ex.raise_if(state, z3.Or(t < 0, t > 255), "OverflowError")
+    o.arr = z3.Store(o.arr, o.n, t)
     o.n = simp(o.n + 1)
     return VNone
 
